@@ -15,6 +15,7 @@ import (
 	"fmt"
 	"math"
 	"regexp"
+	"strconv"
 	"strings"
 	"time"
 
@@ -42,7 +43,7 @@ func run(c *hc.Ctx) {
 	parts := []struct {
 		name string
 		f    func(*hc.Ctx)
-	}{{"parser", corrParser}, {"lexer", corrLexer}, {"printers", printers}, {"long", longInputs}, {"svg", parseSVGDocs}}
+	}{{"parser", corrParser}, {"lexer", corrLexer}, {"numbers", numbers}, {"printers", printers}, {"long", longInputs}, {"svg", parseSVGDocs}}
 	for _, p := range parts {
 		if c.Only == "" || c.Only == p.name {
 			p.f(c)
@@ -73,6 +74,9 @@ func runParse(s string) outcome {
 		return outcome{hang: true}
 	}
 }
+
+// an arc flag directly followed by another flag or a number, no separator
+var packedFlags = regexp.MustCompile(`[Aa][^A-Za-z]*?[ ,][01][01][-+.0-9]`)
 
 var reErrs = []*regexp.Regexp{
 	regexp.MustCompile(`^bad path: path should start with command$`),
@@ -151,6 +155,32 @@ func parseCase(c *hc.Ctx, class, s string) outcome {
 			fail(c, "panic:ParseSVGPath-whitespace-only", "ParseSVGPath panics on a whitespace/comma-only string: "+o.panic, map[string]any{"input": s, "input_hex": hexOf(s)})
 		} else {
 			fail(c, "panic:ParseSVGPath", "ParseSVGPath panicked: "+o.panic, map[string]any{"input": s, "input_hex": hexOf(s)})
+		}
+	}
+	// which parts of the grammar this input exercises (counted once per input)
+	if ts, err := tokenizeSVG(s); err == nil {
+		seen := map[string]bool{}
+		args, lastCmd := 0, byte(0)
+		for i, t := range ts {
+			switch t.kind {
+			case 'c':
+				seen["grammar:cmd:"+string(t.c)] = true
+				args, lastCmd = 0, t.c&^0x20
+			case 'f':
+				seen["grammar:arc-flag"] = true
+				args++
+			default:
+				args++
+			}
+			if ar := svgArity[lastCmd]; ar > 0 && args > ar && i > 0 {
+				seen["grammar:implicit-repeat:"+string(lastCmd)] = true
+			}
+		}
+		if packedFlags.MatchString(s) {
+			seen["grammar:packed-flags"] = true
+		}
+		for k := range seen {
+			c.Count(k)
 		}
 	}
 	if len(s) <= 2500 && !o.hang {
@@ -349,6 +379,11 @@ func genCoordWide(c *hc.Ctx) float64 {
 		return math.Round(c.Norm()*1e6) * 1e3
 	case 5:
 		return c.Norm() * math.Pow(10, float64(c.Intn(60)-20))
+	case 6:
+		if c.Chance(0.4) { // just below a power of ten: rounding to Precision digits carries
+			return math.Pow(10, float64(1+c.Intn(5))) * (1 - []float64{5e-9, 4e-9, 1e-9, 6e-9, 1e-8}[c.Intn(5)]) * float64(1-2*c.Intn(2))
+		}
+		return c.GenCoord()
 	default:
 		return c.GenCoord()
 	}
@@ -412,6 +447,7 @@ func corrParser(c *hc.Ctx) {
 	// fixed seeds: the documented examples and the classes named by the property
 	for _, s := range []string{"", " ", "  ", "\n", " ,", ", ", ",", "\t\r\n ", "M", "M5", "M5 5", "5", "MM", "M0 0L", "M0 0L1", "M0 0L1 1 2",
 		"A10 10 000 20 0", "A10 10 0 23 20 0", "M0 0A5 5 30 011 1", "M0 0a5 5 30 1,0,1 1", "M0 0A5 5 30 2 1 1 1", "M0 0A5 5 30 1",
+		"M0 0a1 1 0 00 1 1", "M0 0a1 1 0 00 1 1 1 1 0 11-1-1", "M0 0A1,1,0,0,1,1,1", "M0 0a1 1 0 0 0 1 1z5", "M0e375 0", "M18446744073709551616 0", "M27841224179597934592.5 0",
 		"V4-z\n0\xecG\xdfIz\xd8", "ae000e000e00", "s........----.......---------------", "l00000000000000000000+00000000000000000000 00000000000000000000",
 		"M1 1z M3 3z l1 1", "M0 0L-", "M0 0L1 1 .", "M0 0 1 1 2 2", "m1 1 1 1 1 1z", "M0 0C1 1 2 2 3 3S4 4 5 5s1 1 2 2T1 1", "M0 0Q1 1 2 2T3 3t1 1S1 1 2 2",
 		"M1e2.5", "M1e2e3 4", "M-.5-.5.5.5", "M1.2e37 0", "M12e36 0", "M0.30000000000000004 0", "M18446744073709551615 18446744073709551616", "M1e-400 1e400",
@@ -492,6 +528,22 @@ func corrLexer(c *hc.Ctx) {
 		"18446744073709551615", "18446744073709551616", "1844674407370955161.6", "1844674407370955162", "1e308", "1e309", "1e-323", "1e-324", "4.9e-324", "1e9223372036854775807", "1e-9223372036854775808", "1e9223372036854775808",
 		"0.30000000000000004", "1..2", "1.2.3", "--1", "+-1", "1e1e1", "00012", "-0", "-0.0", "1e-22", "1e-23", "9007199254740993", "1e15", "1000000000000000e22", "1000000000000001e22"}
 	for i := 0; i < 2*c.N; i++ {
+		if c.Chance(0.08) {
+			// integer parts around the uint64 limit, with and without a dot
+			d := "18446744073709551615"
+			k := 17 + c.Intn(8)
+			var sb strings.Builder
+			for j := 0; j < k; j++ {
+				if c.Chance(0.5) && j < len(d) {
+					sb.WriteByte(d[j])
+				} else {
+					sb.WriteByte(byte('0' + c.Intn(10)))
+				}
+			}
+			sb.WriteString([]string{"", ".", ".0", ".5", ".25e3", "e2"}[c.Intn(6)])
+			cases = append(cases, sb.String())
+			continue
+		}
 		if c.Chance(0.3) {
 			cases = append(cases, fmt.Sprintf("%g", genCoordWide(c)))
 		} else {
@@ -506,6 +558,31 @@ func corrLexer(c *hc.Ctx) {
 			continue
 		}
 		c.Count("lexer")
+		// semantic oracle on the real lexer: what it reads is the correctly rounded value of the
+		// prefix it consumed, except in the three recorded defect classes (decided from the numeral)
+		if n > 0 {
+			want, _ := strconv.ParseFloat(s[:n], 64)
+			cls := lexClass(s[:n])
+			c.Count("lexer:class:" + cls)
+			if u := ulpDist(v, want); u != 0 {
+				rp := map[string]any{"numeral": s[:n], "read": fmt.Sprint(v), "want": fmt.Sprint(want), "class": cls}
+				gross := u > 64
+				switch {
+				case cls == "large-exponent" && gross:
+					fail(c, "lexer:large-exponent-rescaled", fmt.Sprintf("ParseFloat(%q) = %v, want %v", s[:n], v, want), rp)
+				case cls == "uint64-wraparound" && gross:
+					fail(c, "lexer:uint64-wraparound", fmt.Sprintf("ParseFloat(%q) = %v, want %v", s[:n], v, want), rp)
+				case cls == "pow10-saturation" && gross:
+					fail(c, "lexer:pow10-saturation", fmt.Sprintf("ParseFloat(%q) = %v, want %v", s[:n], v, want), rp)
+				case cls == "overflow-before-dot" && gross:
+					fail(c, "lexer:uint64-overflow-before-dot", fmt.Sprintf("ParseFloat(%q) = %v, want %v", s[:n], v, want), rp)
+				case cls != "exact" && !gross:
+					fail(c, "lexer:not-correctly-rounded", fmt.Sprintf("ParseFloat(%q) = %v, want %v (%v ulp)", s[:n], v, want, u), rp)
+				default:
+					fail(c, "lexer:wrong-value", fmt.Sprintf("ParseFloat(%q) = %v, want %v (class %s)", s[:n], v, want, cls), rp)
+				}
+			}
+		}
 		if n == 0 {
 			c.Count("lexer:none")
 		} else if n < len(s) {
